@@ -650,9 +650,13 @@ def gen_real(rng):
                         "sig": [float(10 ** rng.uniform(-6, -3)), float(10 ** rng.uniform(-6, -3)), float(10 ** rng.uniform(-3, -1)), float(10 ** rng.uniform(-6, -4))][: 4 if radar else 2]})
     rho = float(10 ** rng.uniform(2.7, 4.5))
     side = float(rng.choice([-1.0, 1.0]))
-    daz = float(rng.choice([0.0, 1e-9, 1e-7, 1e-5, 1e-3, 1e-2]))
     s_ang = float(10 ** rng.uniform(-6, -2))
-    return {"kind": "real", "t": t.isoformat(), "alpha": alpha, "beta": 2.0, "kappa": [None, 0.0][int(rng.integers(2))], "resample": bool(rng.integers(2)),
+    # azimuth of the *estimate* relative to the 0/2pi seam, in units of the sigma-point spread gamma*s_ang (|frac| < 1: the cloud straddles)
+    kap = [None, 0.0][int(rng.integers(2))]
+    gam = alpha * math.sqrt(3.0 if kap is None else 6.0)
+    frac = float(rng.choice([0.0, 0.01, 0.3, 0.7, 0.95, 3.0, 1e3]))
+    daz = frac * gam * s_ang if rng.random() < 0.8 else float(rng.choice([0.0, 1e-12, 1e-9, 1e-6]))
+    return {"kind": "real", "t": t.isoformat(), "alpha": alpha, "beta": 2.0, "kappa": kap, "resample": bool(rng.integers(2)),
             "sensors": sensors, "az": side * daz, "el": float(rng.uniform(0.2, 1.3)), "rho": rho, "vel": [float(v) for v in rng.standard_normal(3) * 3.0],
             "sig_r": s_ang * rho, "sig_v": float(10 ** rng.uniform(-5, -2)), "err": [float(v) for v in rng.standard_normal(6)], "noise": [float(v) for v in rng.standard_normal(12)]}
 
@@ -671,10 +675,10 @@ def run_real(ctx, spec, only=None):
     az, el, rho = spec["az"], spec["el"], spec["rho"]
     sez = np.array([-rho * math.cos(el) * math.cos(az), rho * math.cos(el) * math.sin(az), rho * math.sin(el), 0.0, 0.0, 0.0])
     tgt_ecef = sen0 + sez2ecef(sez, s0["lat"], s0["lon"])
-    tgt = np.array(ecef2eci(tgt_ecef, utc), dtype=float)
-    tgt[3:] = tgt[3:] + np.array(spec["vel"])
+    x0 = np.array(ecef2eci(tgt_ecef, utc), dtype=float)          # the *estimate* sits at the chosen azimuth offset from the seam
+    x0[3:] = x0[3:] + np.array(spec["vel"])
     sd = np.array([spec["sig_r"]] * 3 + [spec["sig_v"]] * 3)
-    x0 = tgt + 0.5 * sd * np.array(spec["err"])
+    tgt = x0 + 0.5 * sd * np.array(spec["err"])                   # truth (generates the measurements)
     p0 = np.diag(sd ** 2)
     q = np.diag((sd * 1e-2) ** 2)
     wm, wc, _g = kf.ut_weights(6, spec["alpha"], spec["beta"], spec["kappa"])
